@@ -254,7 +254,7 @@ func (b *Buffer) prev() *GlyphInfo {
 
 func (b *Buffer) digest() (d setDigest) {
 	for _, glyph := range b.Info {
-		d.add(gID(glyph.Glyph))
+		d.add(gid16(glyph.Glyph))
 	}
 	return d
 }
